@@ -29,12 +29,15 @@ ID = "C19"
 DRIVER = "drv_c19"
 PROPS = ["Ptk.Props.C19", "Ptk.Props.C19Cascade", "Ptk.Props.C19Color", "Ptk.Props.C19Sgr", "Ptk.Props.C19Depth",
          "Ptk.Props.C19Style", "Ptk.Props.C19Valid"]
-LEVEL_TEXT = ("Lean 4 theorems over an executable model of Style.get_attrs_for_style_str / _merge_attrs / "
-              "merge_styles (last-wins cascade, class-combination matching, merged = concatenated, concreteness), "
-              "of the nearest-colour searches (argmin over any palette, first on ties, exact colours fixed) and of "
-              "the SGR encoder / ANSI decoder pair (24-bit round trip, lower depths emit the nearest palette "
-              "code); tables are regenerated from /repo on every run and the model is tied to the code by a "
-              "differential correspondence plus the property oracle")
+LEVEL_TEXT = ("Lean 4 theorems over an executable model of styles/style.py (parse_color, _parse_style_str, Style, "
+              "get_attrs_for_style_str with the combos construction, _merge_attrs, merge_styles), output/vt100.py "
+              "(_get_closest_ansi_color, _16/_256ColorCache, _EscapeCodeCache) and formatted_text/ansi.py (ANSI parser, "
+              "_select_graphic_rendition, _create_style_string): last-wins cascade with every attribute concrete, a rule "
+              "takes part iff all its classes occur, merged sheets = concatenated rule tables, argmin lemma for any "
+              "palette (nearest, first on ties, exact colours fixed), 24-bit escape -> ANSI -> style string -> Attrs is "
+              "the identity on canonical attributes, 8/4/1-bit escapes decode to the nearest palette colour / ANSI name / "
+              "no colour; side conditions are re-decided by the kernel on tables regenerated from /repo on every run and "
+              "the model is tied to the code by a differential correspondence plus the property oracle")
 LEVEL_NOTE = ("trusted: Lean kernel, axioms propext/Classical.choice/Quot.sound only; the hand-written model "
               "(validated by the correspondence, not proved equal to the Python); CPython str/int/dict semantics")
 TECHNIQUE = "machine-checked proof (Lean 4) + generated tables + differential correspondence + property oracle"
@@ -49,11 +52,13 @@ EXHAUSTIVE_SCOPE = {
     "quick": "rule lists <=1 over 18 rules x all style strings <=3 parts over 7 parts, rule lists of 2 x all style "
              "strings <=2 parts (+ every 5th of 3 parts); all splits into 2-3 sheets of lists <=2; 128 flag tuples "
              "x 14 colour pairs x depths {1,4,8,24}; RGB 17^3 grid for both maps",
-    "thorough": "rule lists <=3 over 18 rules x style strings <=3 parts over 7 parts; all splits into 2-3 sheets "
-                "of lists <=3 (reduced string set); 128 flag tuples x 14 colour pairs x 4 depths; ALL 256^3 RGB "
-                "triples for the 256-colour map; 52^3 grid x exclusion lists for the 16-colour map"}
+    "thorough": "rule lists <=2 over 18 rules x all style strings <=3 parts over 7 parts (lists <=1: <=4 parts), rule "
+                "lists of 3 x strings <=2 parts (+ sample); all splits into 2-3 sheets; 128 flag tuples x 14 colour "
+                "pairs x 4 depths; real code + oracle on ALL 256^3 RGB triples for the 256-colour map (model side on "
+                "every 8th r-plane + grids); 52^3 grid x exclusion lists for the 16-colour map"}
 TRUSTED = ["harness/c19.py compares Attrs / escape strings / fragments / palette indices line by line",
-           "harness/gen_c19.py prints the live colour tables of /repo into lean/Ptk/Gen/C19.lean",
+           "harness/gen_c19.py prints the live colour tables of /repo into lean/Ptk/Gen/C19.lean, plus one behaviour "
+           "probe (does parse_color reject '#'+non-hex?) that selects the corresponding branch of the model",
            "Ptk/Model/C19*.lean are hand translations of styles/style.py, output/vt100.py (colour part), "
            "formatted_text/ansi.py (correspondence-checked)"]
 ASSUMPTIONS = ["CPython str.split/lower/int(s,16)/dict-order semantics; str.lower and int() modelled for ASCII input",
@@ -62,9 +67,13 @@ ASSUMPTIONS = ["CPython str.split/lower/int(s,16)/dict-order semantics; str.lowe
                "memoisation of pure functions; exercised by repeated and interleaved queries",
                "RGB components are in 0..255 (the encoder guarantees it with & 0xFF)"]
 PARTIAL_SCOPE = ["Style.from_dict / Priority.MOST_PRECISE ordering, DynamicStyle, style transformations are not modelled",
-                 "hex colours compare modulo letter case in the round trip (the decoder prints lower-case hex)",
-                 "colour strings that are neither '', an ANSI name nor 6 hex digits ('default', unvalidated 6-character "
-                 "strings accepted by parse_color) emit no / a different code; excluded from the round-trip theorem"]
+                 "the round trip is modulo the canonical form: None = ''/False, 'default' = '', hex digits lower-case "
+                 "(the decoder prints lower-case hex)",
+                 "known finding: parse_color accepts '#'+6 (or 3) arbitrary characters; such 'colours' emit no / another "
+                 "code. The round-trip theorem excludes exactly these words (ColorArgOk) and Lean proves the "
+                 "counterexample '#zzzzzz' (unvalidated_hex_breaks_roundtrip)",
+                 "16-colour map: the saturation rule lists the obsolete names ansilightgray/ansidarkgray, so grays stay "
+                 "admissible for saturated colours (modelled as is; nearest among the admissible set is proved)"]
 
 DEPTHS = {1: ColorDepth.DEPTH_1_BIT, 4: ColorDepth.DEPTH_4_BIT, 8: ColorDepth.DEPTH_8_BIT,
           24: ColorDepth.DEPTH_24_BIT}
@@ -117,7 +126,9 @@ def model_lines(case):
     if k == "c256":
         return [f"c256 {r} {g} {b}" for r, g, b in case["rgbs"]]
     if k == "c256row":
-        return [f"c256row {case['r']} {g}" for g in case["gs"]]
+        # the model side of the full sweep is run on every 8th r-plane (2.1 M triples); the real
+        # code and the property oracle are evaluated on ALL 256^3 triples
+        return [f"c256row {case['r']} {g}" for g in case["gs"]] if case.get("corr", True) else []
     if k == "c16":
         return [f"c16 {r} {g} {b} {core.enc_list(ex, enc_str)}" for (r, g, b, ex) in case["items"]]
     if k == "c16code":
@@ -199,6 +210,20 @@ def real_c256(rgb):
     return vt100._256_colors[tuple(rgb)]
 
 
+_row_memo = {}
+
+
+def real_row(r, g):
+    """_256_colors[(r, g, b)] for all b (computed once per worker for impl_lines and oracle)"""
+    if (r, g) not in _row_memo:
+        if len(_row_memo) > 64:
+            _row_memo.clear()
+        cache = vt100._256_colors
+        _row_memo[(r, g)] = [cache[(r, g, b)] for b in range(256)]
+        cache.clear()
+    return _row_memo[(r, g)]
+
+
 def impl_lines(case):
     k = case["k"]
     if k == "q":
@@ -239,12 +264,9 @@ def impl_lines(case):
             vt100._256_colors.clear()
         return out
     if k == "c256row":
-        out = []
-        r = case["r"]
-        for g in case["gs"]:
-            out.append(" ".join(str(real_c256((r, g, b))) for b in range(256)))
-            vt100._256_colors.clear()
-        return out
+        if not case.get("corr", True):
+            return []
+        return [" ".join(map(str, real_row(case["r"], g))) for g in case["gs"]]
     if k == "c16":
         return [enc_str(_get_closest_ansi_color(r, g, b, exclude=ex)) for (r, g, b, ex) in case["items"]]
     if k == "c16code":
@@ -569,9 +591,7 @@ def oracle(case):
     elif k == "c256row":
         r = case["r"]
         for g in case["gs"]:
-            row = [real_c256((r, g, b)) for b in range(256)]
-            vt100._256_colors.clear()
-            v += check_256_row(r, g, row)
+            v += check_256_row(r, g, real_row(r, g))
     elif k == "c16":
         for (r, g, b, ex) in case["items"]:
             v += check_16((r, g, b), _get_closest_ansi_color(r, g, b, exclude=ex), ex, "_get_closest_ansi_color")
@@ -594,24 +614,28 @@ def oracle(case):
     return out
 
 
+_PAL16 = [(j, p) for j, p in enumerate(PALETTE) if j >= 16]
+_PB_SQ = [[(b - p[2]) ** 2 for _, p in _PAL16] for b in range(256)]
+_EXACT = {}
+for _j, _p in reversed(_PAL16):
+    _EXACT[_p] = _j
+
+
 def check_256_row(r, g, row):
-    """nearest-colour check for one (r, g, *) row; the minimum is computed per (r,g) with the b-independent
-    part of the distance hoisted (same definition, cheaper)."""
+    """nearest-colour check for one (r, g, *) row: the distance of the chosen entry must equal the minimum
+    over all entries >= 16 (computed with the b-independent part hoisted: same definition, cheaper)."""
+    import operator
     v = []
-    base = [(j, (r - p[0]) ** 2 + (g - p[1]) ** 2, p[2]) for j, p in enumerate(PALETTE) if j >= 16]
-    exact = {p: j for j, p in reversed(list(enumerate(PALETTE))) if j >= 16}
+    d0s = [(r - p[0]) ** 2 + (g - p[1]) ** 2 for _, p in _PAL16]
     for b in range(256):
         m = row[b]
         if not (16 <= m < len(PALETTE)):
             v += check_256((r, g, b), m, "_256ColorCache")
             continue
-        best = None
-        bj = None
-        for j, d0, pb in base:
-            dd = d0 + (b - pb) ** 2
-            if best is None or dd < best:
-                best, bj = dd, j
-        if m != bj or ((r, g, b) in exact and PALETTE[m] != (r, g, b)):
+        best = min(map(operator.add, d0s, _PB_SQ[b]))
+        pm = PALETTE[m]
+        dm = (r - pm[0]) ** 2 + (g - pm[1]) ** 2 + (b - pm[2]) ** 2
+        if dm != best or ((r, g, b) in _EXACT and pm != (r, g, b)):
             v += check_256((r, g, b), m, "_256ColorCache")
     return v
 
@@ -773,16 +797,17 @@ def cases(tier, rng):
     # --- exhaustive cascade -----------------------------------------------------------
     strs3 = all_strs(3)
     strs2 = all_strs(2)
+    strs4 = strs3 if quick else all_strs(4)
     for rules in all_rule_lists(2 if quick else 3):
         if quick:
             strs = strs3 if len(rules) < 2 else strs2 + strs3[57::5]
         else:
-            strs = strs3 if len(rules) < 3 else strs2 + strs3[57::7]
+            strs = strs4 if len(rules) < 2 else strs3 if len(rules) < 3 else strs2 + strs3[57::11]
         yield {"k": "q", "sheets": [rules], "strs": strs}
     for rules in all_rule_lists(2 if quick else 3):
         if not rules:
             continue
-        if len(rules) == 3 and rng.random() < 0.8:
+        if len(rules) == 3 and rng.random() < 0.93:
             continue
         for k in (2, 3):
             for sp in splits(rules, k):
@@ -828,7 +853,7 @@ def cases(tier, rng):
     else:
         for r in range(256):
             for gs in chunks(list(range(256)), 16):
-                yield {"k": "c256row", "r": r, "gs": gs}
+                yield {"k": "c256row", "r": r, "gs": gs, "corr": r % 8 == 0}
         g3 = grid(52)
         pts = [[r, g, b, []] for r in g3 for g in g3 for b in g3]
         for ch in chunks(pts, 1000):
